@@ -550,6 +550,8 @@ func (g *gen) casIndex(cur uint64) uint64 {
 			return cur - 1
 		}
 		return cur + 3
+	case r < 19:
+		return g.idx // the command's own index: matches what an earlier operation of the same transaction wrote
 	default:
 		return g.idx + 5
 	}
@@ -871,9 +873,46 @@ func (g *gen) next() Cmd {
 	case 5:
 		c.Kind = "txn"
 		n := 1 + g.rng.Intn(3) + g.rng.Intn(3)*g.rng.Intn(2)
+		switch g.rng.Intn(40) {
+		case 0:
+			n = 0 // the empty transaction
+		case 1:
+			n = 20 + g.rng.Intn(45) // long (the endpoint allows 128 operations)
+		}
 		g.safe = g.rng.Intn(5) < 3
-		for i := 0; i < n; i++ {
-			c.Ops = append(c.Ops, g.txnOp())
+		switch {
+		case n > 0 && g.rng.Intn(12) == 0:
+			// a creation chain inside one transaction: node, then a service and a check on it, then a
+			// write that depends on them (the check's own-index cas) -- read-your-writes across tables
+			nd := g.pick(nodeNames)
+			si := g.rng.Intn(len(svcIDs))
+			ck := g.checkReq(nd)
+			ck.Service = svcIDs[si]
+			ck2 := ck
+			ck2.Status = g.rng.Intn(3)
+			ck2.Index = g.idx
+			c.Ops = append(c.Ops,
+				TxnOp{Kind: "node", Verb: "set", Node: nd, ID: g.pick(nodeIDs), Addr: 1 + g.rng.Intn(2)},
+				TxnOp{Kind: "service", Verb: "set", Node: nd, Svc: svcIDs[si], Name: svcNames[si], Port: 80},
+				TxnOp{Kind: "check", Verb: "set", Check: &ck},
+				TxnOp{Kind: "check", Verb: "cas", Check: &ck2})
+			if g.rng.Intn(2) == 0 {
+				c.Ops = append(c.Ops, g.txnOp())
+			}
+		case n > 1 && g.rng.Intn(10) == 0:
+			// cascades ahead of a (likely) failing operation: end lock-holding sessions, then a guard
+			for _, sid := range g.liveSessions() {
+				if g.rng.Intn(2) == 0 {
+					c.Ops = append(c.Ops, TxnOp{Kind: "session", Verb: "delete", Sid: sid})
+				}
+			}
+			c.Ops = append(c.Ops, TxnOp{Kind: "node", Verb: "delete", Node: g.nodeName()})
+			q := g.kvReq("check-index")
+			c.Ops = append(c.Ops, TxnOp{Kind: "kv", Verb: "check-index", KV: q})
+		default:
+			for i := 0; i < n; i++ {
+				c.Ops = append(c.Ops, g.txnOp())
+			}
 		}
 	case 6:
 		c.Kind = "reap"
@@ -1043,6 +1082,34 @@ func (im *impl) oracleReads(d *Dump) []string {
 		}
 	}
 	return out
+}
+
+func bucket(n int) string {
+	switch {
+	case n == 0:
+		return "0"
+	case n <= 3:
+		return "1-3"
+	case n <= 8:
+		return "4-8"
+	case n <= 19:
+		return "9-19"
+	}
+	return "20+"
+}
+
+func toInt(v any) int64 {
+	switch x := v.(type) {
+	case int:
+		return int64(x)
+	case int64:
+		return x
+	case uint64:
+		return int64(x)
+	case float64:
+		return int64(x)
+	}
+	return 0
 }
 
 func allReads(ops []TxnOp) bool {
@@ -1393,6 +1460,24 @@ func runHistory(id int, seed int64, mix string, n int, script []Cmd) History {
 		}
 		// C05: a command that reports an error (a transaction with a failed operation included)
 		// leaves every row of every table as it was
+		if c.Kind == "txn" {
+			h.Stats[fmt.Sprintf("txn_ops_%s", bucket(len(c.Ops)))]++
+			if len(res.Errors) > 0 {
+				first := int(toInt(res.Errors[0][0]))
+				writes := 0
+				for i2, op := range c.Ops {
+					if i2 >= first {
+						break
+					}
+					if !(op.Kind == "kv" && (op.Verb == "get" || op.Verb == "get-or-empty" || op.Verb == "get-tree" || strings.HasPrefix(op.Verb, "check-"))) && op.Verb != "get" {
+						writes++
+					}
+				}
+				if writes > 0 {
+					h.Stats["failed_txns_with_write_ops_before_the_failing_one"]++
+				}
+			}
+		}
 		if res.Kind == "err" || (c.Kind == "txn" && len(res.Errors) > 0) {
 			h.Stats["failed_commands_raw_store_compared"]++
 			if d := rawDiff(raw0, raw1); d != "" {
